@@ -209,4 +209,21 @@ example : render 100 ⟨14, " &\n".toList, " & ".toList⟩
     (Item.jsl (["aaaa".toList, "bbbb".toList, "cccc".toList].map Item.str) ", ".toList true)
     = .ok "aaaa,  &\n & bbbb,  &\n & cccc".toList := by rfl
 
+/-! ## `str()` can raise -/
+
+/-- **known class `split-none-crash`**: the inputs on which the model of `str(list)` ends in `Err.attribute`
+(`_add_item_to_line` asks `item._to_str(line, stop_on_continuation=True)` for the remaining items and receives `None`
+because nothing was wrapped — a first over-long chunk placed on a fresh continuation line followed only by empty items —
+and then evaluates `new_item.items`) -/
+def knownCrash (fuel : Nat) (cfg : Cfg) (item : Item) : Bool :=
+  match render fuel cfg item with
+  | .error .attribute => true
+  | _ => false
+
+/-- the class is inhabited: a nested list `['a', 'x'*40, '']` with separator `','` at width 20 makes `str()` raise -/
+theorem C04_str_raises_witness :
+    render 100 ⟨20, " &\n".toList, " & ".toList⟩
+      (Item.jsl [Item.jsl [.str "a".toList, .str (List.replicate 40 'x'), .str []] ",".toList true] [] true)
+      = .error .attribute := by rfl
+
 end LokiModel.C04
